@@ -1,15 +1,15 @@
 //@ unit msg_loadmsg
 //@ props C01
 //@ kind P
-//@ def quick STRN=6 MLN=6 gXMLErrArraySize=3 gXMLValidityArraySize=2 gXMLExceptArraySize=3 gXMLDOMMsgArraySize=2
-//@ def thorough STRN=12 MLN=14 gXMLErrArraySize=3 gXMLValidityArraySize=2 gXMLExceptArraySize=3 gXMLDOMMsgArraySize=2
+//@ def quick STRN=6 MLN=6 gXMLErrArraySize=4 gXMLValidityArraySize=3 gXMLExceptArraySize=4 gXMLDOMMsgArraySize=3
+//@ def thorough STRN=12 MLN=14 gXMLErrArraySize=4 gXMLValidityArraySize=3 gXMLExceptArraySize=4 gXMLDOMMsgArraySize=3
 //@ rebind src/xercesc/util/MsgLoaders/InMemory/XercesMessages_en_US.hpp gXMLErrArraySize
 //@ rebind src/xercesc/util/MsgLoaders/InMemory/XercesMessages_en_US.hpp gXMLValidityArraySize
 //@ rebind src/xercesc/util/MsgLoaders/InMemory/XercesMessages_en_US.hpp gXMLExceptArraySize
 //@ rebind src/xercesc/util/MsgLoaders/InMemory/XercesMessages_en_US.hpp gXMLDOMMsgArraySize
 //@ enforce InMemMsgLoader_loadMsg
 //@ entry h_loadmsg
-//@ note P: the copy loop runs through a loop contract; the four message tables are arbitrary (nondet) tables of g...ArraySize rows of STRN units whose selected row holds a NUL (that the REAL tables have exactly g...ArraySize rows, each NUL-terminated inside its 128 units, is checked on the real text in unit msg_tables_w); target buffer as documented by the callers: maxChars + 1 elements, END-aligned
+//@ note P: the copy loop runs through a loop contract; the four message tables are arbitrary (nondet) tables of g...ArraySize - 1 rows of STRN units whose selected row holds a NUL (that every row of the REAL tables is NUL-terminated inside its 128 units and that every message code has a row is checked on the real text in unit msg_tables_w); target buffer as documented by the callers: maxChars + 1 elements, END-aligned
 //@ note the domain test XMLString::equals(fMsgDomain, XMLUni::fg...Domain) is replaced by a harness-chosen selector (trusted stub): any domain, also an unknown one
 //@ note precondition msgToLoad >= 1: message ids start at 1 (0 is NoError and is never loaded); with id 0 the code would index row (unsigned)-1
 #define VERIF_DEFINE_GHOSTS
@@ -19,12 +19,15 @@ typedef unsigned int XMLMsgLoader_XMLMsgId;
 enum { DOM_none, DOM_fgXMLErrDomain, DOM_fgExceptDomain, DOM_fgValidityDomain, DOM_fgXMLDOMMsgDomain };
 int DOMSEL;
 XMLSize_t KW;     /* witness: length of the selected message (first NUL of its row) */
-XMLCh gXMLErrArray[gXMLErrArraySize][STRN], gXMLValidityArray[gXMLValidityArraySize][STRN], gXMLExceptArray[gXMLExceptArraySize][STRN], gXMLDOMMsgArray[gXMLDOMMsgArraySize][STRN];
+/* as in the real tables the row count is SMALLER than the g...ArraySize constant the code tests against (see msg_tables_w) */
+#define ROWS_OF(size) ((size) - 1)
+XMLCh gXMLErrArray[ROWS_OF(gXMLErrArraySize)][STRN], gXMLValidityArray[ROWS_OF(gXMLValidityArraySize)][STRN], gXMLExceptArray[ROWS_OF(gXMLExceptArraySize)][STRN], gXMLDOMMsgArray[ROWS_OF(gXMLDOMMsgArraySize)][STRN];
 #define DOM_SIZE ((DOMSEL == DOM_fgXMLErrDomain) ? gXMLErrArraySize : (DOMSEL == DOM_fgExceptDomain) ? gXMLExceptArraySize : (DOMSEL == DOM_fgValidityDomain) ? gXMLValidityArraySize : (DOMSEL == DOM_fgXMLDOMMsgDomain) ? gXMLDOMMsgArraySize : 0)
 #define LOADS (msgToLoad <= DOM_SIZE)
+#define HAS_ROW (DOM_SIZE != 0 && msgToLoad <= ROWS_OF(DOM_SIZE))
 #define RIX ((msgToLoad - 1) % 3)    /* == msgToLoad - 1 whenever LOADS (table sizes <= 3); keeps unguarded evaluations in bounds */
-_Static_assert(gXMLErrArraySize <= 3 && gXMLValidityArraySize <= 3 && gXMLExceptArraySize <= 3 && gXMLDOMMsgArraySize <= 3, "RIX");
-#define SELROW ((DOMSEL == DOM_fgXMLErrDomain) ? gXMLErrArray[RIX % gXMLErrArraySize] : (DOMSEL == DOM_fgExceptDomain) ? gXMLExceptArray[RIX % gXMLExceptArraySize] : (DOMSEL == DOM_fgValidityDomain) ? gXMLValidityArray[RIX % gXMLValidityArraySize] : gXMLDOMMsgArray[RIX % gXMLDOMMsgArraySize])
+_Static_assert(gXMLErrArraySize <= 4 && gXMLValidityArraySize <= 4 && gXMLExceptArraySize <= 4 && gXMLDOMMsgArraySize <= 4, "RIX");
+#define SELROW ((DOMSEL == DOM_fgXMLErrDomain) ? gXMLErrArray[RIX % ROWS_OF(gXMLErrArraySize)] : (DOMSEL == DOM_fgExceptDomain) ? gXMLExceptArray[RIX % ROWS_OF(gXMLExceptArraySize)] : (DOMSEL == DOM_fgValidityDomain) ? gXMLValidityArray[RIX % ROWS_OF(gXMLValidityArraySize)] : gXMLDOMMsgArray[RIX % ROWS_OF(gXMLDOMMsgArraySize)])
 #define OUTLEN ((KW < maxChars) ? KW : maxChars)
 
 /*@extract src/xercesc/util/MsgLoaders/InMemory/InMemMsgLoader.cpp InMemMsgLoader::loadMsg
@@ -34,6 +37,8 @@ ret false
 sub XMLString::equals\(fMsgDomain, XMLUni::(\w+)\) => (DOMSEL == DOM_\1)
 contract
 __CPROVER_requires(G < MLN && maxChars <= MLN && msgToLoad >= 1)
+/* ids between the row count and g...ArraySize are outside the contract: the range test admits them but they have no row (finding msg_table_size_mismatch); msg_tables_w shows that no message code lies there */
+__CPROVER_requires(HAS_ROW || !LOADS)
 __CPROVER_requires(__CPROVER_w_ok(toFill, (maxChars + 1) * sizeof(XMLCh)))
 __CPROVER_requires(LOADS ==> (KW < STRN && SELROW[KW] == 0 && NONUL_BEFORE(SELROW, KW)))
 __CPROVER_assigns(__CPROVER_object_upto(toFill, (maxChars + 1) * sizeof(XMLCh)))
@@ -60,4 +65,5 @@ void h_loadmsg(void)
   if (ok && KW > maxChars && maxChars > 1) VERIF_CANARY("loadMsg: truncated message reachable");
   if (ok && DOMSEL == DOM_fgXMLDOMMsgDomain && KW > 1 && KW < maxChars) VERIF_CANARY("loadMsg: whole message reachable");
   if (!ok && DOMSEL == DOM_fgExceptDomain) VERIF_CANARY("loadMsg: id beyond the table reachable");
+  if (ok && DOMSEL == DOM_fgXMLErrDomain && id == ROWS_OF(gXMLErrArraySize)) VERIF_CANARY("loadMsg: last row reachable");
 }
